@@ -493,6 +493,17 @@ def align_variable_names_with_convention(
     }
     # Parameters are not renamed, so neither are the assignments to them in the function body
     preserve |= {node.arg for node in core.walk(ast_tree, ast.arg)}
+    # Definitions inside if / try / with / loop blocks are not renamed, so neither are the
+    # definitions of the same name beside them (def log ... if DEBUG: def log ...)
+    scope_types = (ast.Module, ast.FunctionDef, ast.AsyncFunctionDef, ast.ClassDef)
+    definition_types = (ast.FunctionDef, ast.AsyncFunctionDef, ast.ClassDef)
+    preserve |= {
+        child.name
+        for node in core.walk(ast_tree, ast.AST)
+        if not isinstance(node, scope_types)
+        for child in ast.iter_child_nodes(node)
+        if isinstance(child, definition_types)
+    }
     renamings = collections.defaultdict(set)
     classdefs: List[ast.ClassDef] = []
     funcdefs: List[ast.FunctionDef] = []
